@@ -158,7 +158,7 @@ def store_rules(cfg, R, lib):
     R.rule('R2-index', 'every subscript of a fixed-size member array / sized buffer parameter is inside its capacity', floor=25)
     R.rule('R2-size', 'every (buffer, size) argument pair passes the extent of the array it passes, and size >= 1', floor=5)
     R.rule('R2-const', 'constant subscripts of local and member arrays are inside the extent', floor=4)
-    R.rule('R2-copy', 'copyAndReplace(): every store through dst++ consumes one unit of a positive dstSize', floor=2)
+    R.rule('R2-copy', 'copyAndReplace(): interpreted on every short source string, replacement and buffer size, it writes inside dst[0..dstSize-1] only, reads src up to its terminator only and leaves dst NUL-terminated', floor=200)
     memo = {}
     # -- return bounds of helper functions -------------------------------------------------------------
     retbounds = {}
@@ -316,7 +316,7 @@ def store_rules(cfg, R, lib):
                         if not (0 <= v < ext):
                             R.violation('R2-const', c, s.loc, 'constant subscript %d is outside %s of %d elements' % (v, show(ix.a[0]), ext))
     for q in ('ace_time::BasicZoneProcessor::copyAndReplace', 'ace_time::ExtendedZoneProcessor::copyAndReplace'):
-        copy_rule(R, lib, lib.fn(q))
+        copy_eval(R, lib, lib.fn(q))
 
 
 def lib_fold(lib, e):
@@ -403,75 +403,46 @@ def report(R, lib, f, ai, rid):
             R.violation(rid, ob.construct, ob.loc, ob.msg + '; known: ' + ob.state)
 
 
-class CopyRule(Rule):
-    """state (credit, pending): credit = a free slot is guaranteed (size tested > 0, not yet consumed);
-    pending = a store happened and the size counter has not been decremented yet."""
-
-    def __init__(self, R, f, dst, size):
-        self.R, self.f, self.dst, self.size = R, f, dst, size
-        self.stores = 0
-
-    def initial(self):
-        return [(False, False)]
-
-    def _is_size(self, e):
-        while e.k == 'cast':
-            e = e.a[2]
-        return e.k == 'var' and e.a[0] == self.size
-
-    def refine(self, cond, st, truth):
-        c = cond
-        while c.k == 'cast':
-            c = c.a[2]
-        if c.k == 'bin' and c.a[0] in ('>', '!=', '==') and self._is_size(c.a[1]) and c.a[2].k in ('const', 'cast'):
-            z = c.a[2]
-            while z.k == 'cast':
-                z = z.a[2]
-            if z.k == 'const' and z.a[0] == 0:
-                positive = (c.a[0] in ('>', '!=')) == truth
-                if st[1]:
-                    self.R.violation('R2-copy', self.f.name, cond.loc, 'the size counter is tested again before it was decremented for the previous store')
-                return (positive, False)
-        return st
-
-    def event(self, e, st, tr):
-        if e.k == 'incdec' and e.a[2].k == 'var' and e.a[2].a[0] == self.dst and e.a[0] == '--':
-            # steps back onto the last written slot
-            return (True, st[1])
-        return st
-
-    def assign(self, s, st, tr):
-        if s.k != 'assign':
-            return st
-        t = s.a[0]
-        if t.k == 'deref':
-            inner = t.a[0]
-            while inner.k == 'cast':
-                inner = inner.a[2]
-            is_dst = (inner.k == 'incdec' and inner.a[2].k == 'var' and inner.a[2].a[0] == self.dst) or \
-                     (inner.k == 'var' and inner.a[0] == self.dst)
-            if is_dst:
-                self.stores += 1
-                self.R.instance('R2-copy', self.f.name, s.loc, 'store through %s' % show(t))
-                if not st[0]:
-                    self.R.violation('R2-copy', self.f.name, s.loc, 'store through %s on a path where %s was not tested to be positive since the last store' % (show(t), self.size), detail=list(tr))
-                if inner.k == 'incdec':
-                    return (False, True)
-                return st
-        if t.k == 'var' and t.a[0] == self.size and s.a[2] == '-=':
-            return (st[0], False)
-        if t.k == 'var' and t.a[0] == self.dst and s.a[2] == '-=':
-            # steps back onto the last written slot
-            return (True, st[1])
-        return st
-
-
-def copy_rule(R, lib, f):
-    pairs = _size_pairs(f)
-    if len(pairs) != 1:
-        raise AnalysisError('anchor moved: %s is expected to take one (dst, dstSize) pair' % f.name)
-    (dst, size), = pairs.items()
-    r = CopyRule(R, f, dst, size)
-    Engine(r).run(f.body)
-    if r.stores < 2:
-        raise AnalysisError('%s: expected stores through %s++ were not found' % (f.loc, dst))
+def copy_eval(R, lib, f):
+    """copyAndReplace(dst, dstSize, src, oldChar, newChar | newString) interpreted (E-SEQ, typed) on every source string of up to
+    dstSize + 2 characters over {'a', oldChar}, every replacement ('-' meaning nothing / another character; strings of 0..3
+    characters) and every buffer size 1..5 (thorough: 1..7).  The buffer is followed by guard cells, the strings end at their
+    terminator: a store outside dst[0..dstSize-1], a read past a terminator or a result without NUL is reported."""
+    import itertools
+    from .aeval import AEval, CxxModule, Raised
+    mod = CxxModule(lib, ['ace_time::'])
+    if len(f.params) != 5:
+        raise AnalysisError('anchor moved: %s is expected to take (dst, dstSize, src, oldChar, replacement)' % f.name)
+    by_string = '*' in (f.params[4][1] or '')
+    OLD, A, G = ord('%'), ord('a'), 0x7f
+    repls = ([[0], [ord('X'), 0], [ord('X'), ord('Y'), 0], [ord('X'), ord('Y'), ord('Z'), 0]] if by_string else [ord('-'), ord('X')])
+    sizes = range(1, 8 if R.cfg.tier == 'thorough' else 6)
+    n, bad = 0, None
+    for size in sizes:
+        for ln in range(0, size + 3):
+            for body in itertools.product((A, OLD), repeat=ln):
+                for rp in repls:
+                    n += 1
+                    dst = [G] * size + [G, G]
+                    src = list(body) + [0]
+                    what = None
+                    try:
+                        AEval(module=mod, typed=True, max_steps=20000).call_function(f.name, [dst, size, src, OLD, list(rp) if by_string else rp], chosen=CxxModule._Fn(f))
+                    except IndexError as x_:
+                        what = 'reads or writes outside its arrays (%s)' % x_
+                    except AnalysisError as x_:
+                        if 'subscript' not in str(x_) and 'index' not in str(x_).lower():
+                            raise
+                        what = 'reads or writes outside its arrays (%s)' % x_
+                    except Raised as x_:
+                        what = 'raises %s' % x_.what
+                    if what is None and dst[size:] != [G, G]:
+                        what = 'writes past dst[dstSize-1]'
+                    if what is None and 0 not in dst[:size]:
+                        what = 'leaves dst without a terminating NUL'
+                    if what and bad is None:
+                        bad = 'dstSize %d, src "%s", replacement %s: %s' % (size, ''.join(chr(c) for c in body),
+                                                                          repr(''.join(chr(c) for c in rp[:-1])) if by_string else repr(chr(rp)), what)
+    R.instance('R2-copy', f.name, f.loc, '%d (buffer size, source, replacement) cases interpreted' % n, n=n)
+    if bad:
+        R.violation('R2-copy', f.name, f.loc, bad)
